@@ -1101,7 +1101,16 @@ class Evaluator:
             act.block = t["target"]
             return [st]
         if k == "drop":
+            dropped = self.drop_fns(act, t["place"].get("ty") or "")
             act.block = t["target"]
+            if not dropped:
+                return [st]
+            if len(dropped) > 1 or dropped[0][0]:
+                raise Unsupported("drop of %s runs more than one Drop impl (or one inside a field)" % t["place"].get("ty"))
+            # a value of a workspace type with `impl Drop` goes out of scope here: Drop::drop(&mut value) runs
+            dfn = dropped[0][1]
+            self.stats["inlined"].add(dfn["name"])
+            self.push(st, dfn, dfn["body"], [("ref", self.place_target(st, fid, t["place"]), True)], {"local": 10 ** 6, "proj": [], "ty": "()"}, t["target"])
             return [st]
         if k == "assert":
             c = self.operand(st, act, t["cond"])
@@ -1137,6 +1146,33 @@ class Evaluator:
         if k in ("resume", "terminate"):
             return [Path("panic", None, st, k)]
         raise Unsupported("terminator %s at %s" % (t.get("s", k), w))
+
+    def drop_fns(self, act, ty, depth=0):
+        """[(field path, Drop::drop fn)] the drop glue of type `ty` runs, for workspace types (own impl first, then fields)"""
+        di = getattr(self.prog, "drop_impls", None)
+        if not di or not ty:
+            return []
+        sub_ = act.subst or {}
+        ty = sub_.get(ty, ty)
+        if not any(name.split("::")[-1] in ty for name in di):
+            return []
+        base = ty.split("<")[0].lstrip("&").strip()
+        out = []
+        if base in di:
+            out.append(((), di[base]))
+        a = self.prog.adts.get(base)
+        if a is None:
+            if not out:
+                raise Unsupported("drop of %s, which contains a type with a Drop impl" % ty)
+            return out
+        if depth < 3:
+            for v in a["variants"]:
+                for i, f in enumerate(v["fields"]):
+                    inner = self.drop_fns(act, f["ty"].get("s", ""), depth + 1)
+                    if inner and a["kind"] != "struct":
+                        raise Unsupported("drop of enum %s holding a type with a Drop impl" % ty)
+                    out.extend(((i,) + p, fn_) for p, fn_ in inner)
+        return out
 
     def concrete_loop(self, st, act, h):
         if isinstance(act, NativeActivation):
